@@ -437,11 +437,12 @@ PROPS['C17'] = dict(
 # ------------------------------------------------------------------ C18
 def c18_proj(c, line, is_impl):
     # split result, and (when the PURL builds) its combined name and re-split; which error build() gives otherwise is C05/C09's
+    if c[0] == 'M': return line if not line.startswith('E ') else 'E'
     f = line.split('|')
     return tuple(f[:2]) + (('E',) if len(f) == 3 else tuple(f[2:]))
 PROPS['C18'] = dict(
-    accepts=lambda c: c[0] == 'N',
-    gen=lambda tier, rng: gens.gen_comb(rng, Q(tier, 30000, 400000)),
+    accepts=lambda c: c[0] in 'NM',
+    gen=lambda tier, rng: chain(gens.gen_comb(rng, Q(tier, 30000, 400000)), gens.gen_comb_purl(rng, Q(tier, 10000, 100000))),
     project=c18_proj,
     rule='combined names with any number of "/" and ":" for the seven types (20 fixed shapes each, random strings); split, built PURL, combined_name and its re-split compared',
 )
